@@ -92,7 +92,8 @@ func setupC11Hub(x *Ctx) {
 			switch c {
 			case "disconnect-A":
 				// not waited for: the next cause may coincide with it
-				a.spawn("op", func() { a.hub.DisconnectSKI(b.ski, "x") })
+				ha, bs := a.hub, b.ski
+				a.spawn("op", func() { ha.DisconnectSKI(bs, "x") })
 			case "crash-B", "crash-B-silent":
 				// the peer process dies: killed (sockets reset) or power loss (silence)
 				if !b.crashed {
@@ -109,11 +110,14 @@ func setupC11Hub(x *Ctx) {
 					break
 				}
 				hb := b.hub
-				b.spawn("op", func() { hb.DisconnectSKI(a.ski, "x") })
+				as := a.ski
+				b.spawn("op", func() { hb.DisconnectSKI(as, "x") })
 			case "unregister-A":
-				a.spawn("op", func() { a.hub.UnregisterRemoteSKI(b.ski) })
+				ha, bs := a.hub, b.ski
+				a.spawn("op", func() { ha.UnregisterRemoteSKI(bs) })
 			case "reregister-A":
-				a.spawn("op", func() { a.hub.RegisterRemoteSKI(b.ski) })
+				ha, bs := a.hub, b.ski
+				a.spawn("op", func() { ha.RegisterRemoteSKI(bs) })
 			case "unsafe-close-B":
 				if b.crashed {
 					break
